@@ -30,6 +30,7 @@ META = {
 }
 META["technique"] += '; emission-to-resync no-advance typestate; who-may-build-tokens audit with position-argument provenance'
 META["technique"] += '; polarity-aware path facts for the position guards; sentinel handling of the line searches; source hand-through in BaseLoader.load; unless/if parse comparator'
+META["technique"] += "; template-name provenance of errors raised from stored tokens (value objects that travel between templates)"
 META["level_text"] += " Also decided (R1c, R4): the scan pointer does not move between a token's emission and the resync (no gap), and no token is built outside the lexer with a position of its own (only the position-less end-of-input token)."
 
 S, U, T = "synced", "unsynced", "unknown"
@@ -949,6 +950,27 @@ def run(prog: Program, res: Result) -> None:
     from checks.shared import check_load_hands_through
 
     check_load_hands_through(prog, res, "C17.R15", "source")
+    # ---------------------------------------------------------------- R16: a token that travels keeps its template's name with it
+    res.rule("C17.R16", "an error raised from a *stored* token names the template that token belongs to: a value object that is created in one template's context and may be used while another template renders (the Undefined family: passed on as a `render` / `include` / macro argument) raises with the template name captured together with the token - otherwise render_with_context of the template in which the hook happens to fire fills in its own name, and the message shows `partial:1:18` over a line of the parent")
+    node16 = [prog.cls("liquid2.ast.Node"), prog.cls("liquid2.expression.Expression"), prog.cls("liquid2.tag.Tag")]
+    per_class: dict[str, list] = {}
+    for fi16 in sorted(prog.all_functions(), key=lambda f: (f.file, f.node.lineno)):
+        if fi16.cls is None or any(prog.is_subclass(fi16.cls, b) for b in node16) or fi16.cls.name in ("Filter",) or not fi16.file.endswith("undefined.py"):
+            continue
+        for c16 in ast.walk(fi16.node):
+            if isinstance(c16, ast.Call) and (dotted(c16.func) or "").endswith("Error") and any(k.arg == "token" and norm(k.value).startswith("self.") for k in c16.keywords):
+                per_class.setdefault(fi16.cls.name, []).append((fi16, c16, any(k.arg == "template_name" for k in c16.keywords)))
+    n16 = 0
+    for cname, sites in sorted(per_class.items()):
+        n16 += len(sites)
+        bad16 = [s_ for s_ in sites if not s_[2]]
+        f0, c0, _ = sites[0]
+        what = f"{cname}: errors raised from the stored token carry the stored template name"
+        if bad16:
+            res.fail("C17.R16", file=f0.file, line=bad16[0][1].lineno, qualname=cname, construct=f"{cname}: errors raised from a stored token carry no template name", message=f"{cname} raises `{norm(bad16[0][1], 60)}` in {len(bad16)} hook(s): the token was captured where the variable was looked up, the template name is filled in by whichever template is rendering when the hook fires - a strict undefined handed to a partial (`{{% render 'p', v: nosuch %}}`) is reported as `p:1:18` above the parent's source line", what=what)
+        else:
+            res.ok("C17.R16", f"{f0.file}:{f0.node.lineno} {cname}", what, f"{len(sites)} raise site(s)")
+    res.floor("C17.R16", "raises from a stored token in the undefined family", n16, 10)
 
     # ---------------------------------------------------------------- R1d: saved start marks are fresh when a token is built from them
     res.rule("C17.R1d", "a token built with start=self.<mark> (markup_start, line_start: scan positions saved from self.start) is reached only on paths where the mark was saved after the previous token built from it - across state-function hand-overs (interprocedural fixpoint)")
